@@ -114,7 +114,7 @@ func (c *Ctx) stableField(owner *types.Named, field string) bool {
 			return false
 		}
 		for _, fn := range c.ModFuncs {
-			init := isInit(fn)
+			init := isInit(fn) || c.startOnly(fn, 3)
 			for _, b := range fn.Blocks {
 				for _, in := range b.Instrs {
 					fa, ok := in.(*ssa.FieldAddr)
@@ -357,6 +357,10 @@ func (bf *boundsFn) numberLoads() {
 						if al := cellOf[k2]; al != nil && escapes[al] {
 							delete(cur, k2)
 						}
+					}
+					// ... and remember what this very address now holds
+					if k, _, ok := keyOf(x.Addr); ok {
+						cur[k] = x.Val
 					}
 				}
 			case *ssa.MapUpdate:
@@ -716,6 +720,36 @@ func (bf *boundsFn) defFacts(in ssa.Instruction, fs *factSet) {
 		// x % m in [0, m-1] for non-negative operands; x / k <= x
 		if isIntT(x.Type()) {
 			r := bterm{bnode{x, kVal}, 0, true}
+			if x.Op == token.SUB || x.Op == token.ADD {
+				_, cx := constInt(x.X)
+				_, cy := constInt(x.Y)
+				if !cx && !cy {
+					a, b := bf.norm(x.X), bf.norm(x.Y)
+					snap := &factSet{parent: fs.parent, edges: append([]bedge(nil), fs.edges...), nes: append([]bne(nil), fs.nes...)}
+					if x.Op == token.SUB {
+						// r = a - b
+						for _, k := range []int64{2, 1, 0} {
+							if bf.prove(snap, b, a, -k, 0) { // b + k <= a  =>  r >= k
+								le(fs, kt(k), r, 0)
+								break
+							}
+						}
+						for _, k := range []int64{1, 0} {
+							if bf.prove(snap, kt(k), b, 0, 0) { // b >= k => r <= a - k
+								le(fs, r, a, -k)
+								break
+							}
+						}
+					} else {
+						if bf.prove(snap, zt, b, 0, 0) {
+							le(fs, a, r, 0)
+						}
+						if bf.prove(snap, zt, a, 0, 0) {
+							le(fs, b, r, 0)
+						}
+					}
+				}
+			}
 			switch x.Op {
 			case token.REM:
 				if isUnsigned(x.X.Type()) || bf.nonNegHint(x.X) {
@@ -753,6 +787,17 @@ func (bf *boundsFn) defFacts(in ssa.Instruction, fs *factSet) {
 					le(fs, r, kt(65535), 0)
 				}
 			}
+		}
+	}
+	// loads of integer fields that are never assigned a negative value anywhere in the module
+	if u, ok := in.(*ssa.UnOp); ok && u.Op == token.MUL && isIntT(u.Type()) {
+		if o, f, _, ok := fieldOf(u.X); ok && o != nil && bf.c.fieldNonNeg(o, f) {
+			le(fs, zt, bterm{bnode{bf.canon(u), kVal}, 0, true}, 0)
+		}
+	}
+	if fl, ok := in.(*ssa.Field); ok && isIntT(fl.Type()) {
+		if o, f, _, ok := fieldOf(fl); ok && o != nil && bf.c.fieldNonNeg(o, f) {
+			le(fs, zt, bterm{bnode{fl, kVal}, 0, true}, 0)
 		}
 	}
 	// unsigned values are >= 0
@@ -799,6 +844,26 @@ var idxFns = map[string]int{ // result in [-1, len(arg0)-k]
 var shrinkFns = map[string]bool{ // len(result) <= len(arg0)
 	"bytes.TrimSuffix": true, "bytes.TrimPrefix": true, "bytes.TrimSpace": true, "bytes.Trim": true, "bytes.TrimRight": true, "bytes.TrimLeft": true, "bytes.TrimFunc": true, "bytes.TrimLeftFunc": true, "bytes.TrimRightFunc": true,
 	"strings.TrimSuffix": true, "strings.TrimPrefix": true, "strings.TrimSpace": true, "strings.Trim": true, "strings.TrimRight": true, "strings.TrimLeft": true, "strings.TrimFunc": true, "strings.TrimLeftFunc": true, "strings.TrimRightFunc": true,
+}
+
+// growArg: the callee appends to argument i and returns the grown slice (len(result) >= len(arg i)).
+func growArg(f *ssa.Function, q string) (int, bool) {
+	if strings.HasPrefix(q, "strconv.Append") || strings.HasPrefix(q, "fmt.Append") || q == "encoding/hex.AppendEncode" || q == "(time.Time).AppendFormat" {
+		if q == "(time.Time).AppendFormat" {
+			return 1, true
+		}
+		return 0, true
+	}
+	if f.Signature.Recv() != nil {
+		rn := namedOf(f.Signature.Recv().Type())
+		if rn != nil && rn.Obj().Pkg() != nil && rn.Obj().Pkg().Path() == "github.com/ozontech/insane-json" {
+			switch f.Name() {
+			case "Encode", "AppendEscapedString", "EncodeNoAlloc":
+				return 1, true
+			}
+		}
+	}
+	return 0, false
 }
 
 var sameLenFns = map[string]bool{"strings.Clone": true, "bytes.Clone": true, "slices.Clone": true, "strings.ToLower": false, "bytes.ToLower": false}
@@ -858,6 +923,10 @@ func (bf *boundsFn) callFacts(x *ssa.Call, fs *factSet) {
 		le(fs, bf.lenOf(x), bf.lenOf(args[0]), 0)
 		return
 	}
+	if gi, ok := growArg(f, q); ok && gi < len(args) && isBytesOrString(x.Type()) {
+		le(fs, bf.lenOf(args[gi]), bf.lenOf(x), 0)
+		return
+	}
 	if _, ok := sameLenFns[q]; ok {
 		if sameLenFns[q] {
 			eq(fs, bf.lenOf(x), bf.lenOf(args[0]))
@@ -914,6 +983,16 @@ func (bf *boundsFn) condFacts(cond ssa.Value, truth bool, fs *factSet) {
 		op := x.Op
 		if isIntT(x.X.Type()) && isIntT(x.Y.Type()) {
 			a, b := bf.norm(x.X), bf.norm(x.Y)
+			// (p - q) OP k  is the difference constraint  p OP q + k
+			if sb, ok := bf.canon(x.X).(*ssa.BinOp); ok && sb.Op == token.SUB {
+				if _, isK := constInt(sb.Y); !isK {
+					if k, isK := constInt(x.Y); isK {
+						a = bf.norm(sb.X)
+						b = bf.norm(sb.Y)
+						b.c += k
+					}
+				}
+			}
 			if !truth {
 				switch op {
 				case token.LSS:
@@ -1149,6 +1228,58 @@ func (c *Ctx) paramNonNeg(fn *ssa.Function, i int, depth int) bool {
 		c.nonNeg[key] = 2
 	}
 	return res
+}
+
+// fieldNonNeg: every store to the integer field owner.field in the module stores a provably
+// non-negative value (struct literals included; the zero value is 0), and its address is
+// never handed to a call.
+func (c *Ctx) fieldNonNeg(owner *types.Named, field string) bool {
+	if owner.Obj().Pkg() == nil || !strings.HasPrefix(owner.Obj().Pkg().Path(), c.ModPath) {
+		return false
+	}
+	key := owner.Obj().Pkg().Path() + "." + owner.Obj().Name() + "." + field
+	if c.fNonNeg == nil {
+		c.fNonNeg = map[string]int{}
+	}
+	switch c.fNonNeg[key] {
+	case 1:
+		return true
+	case 2, 3:
+		return false
+	}
+	c.fNonNeg[key] = 3
+	ok := true
+	n := 0
+	for _, a := range c.fieldAccesses(owner.Obj().Pkg().Path(), owner.Obj().Name(), field) {
+		if a.write {
+			n++
+			bf := c.bounds(a.fn)
+			fs := bf.before[a.in]
+			if fs == nil || !bf.prove(fs, zt, bf.norm(a.val), 0, 0) {
+				ok = false
+			}
+			continue
+		}
+		switch a.in.(type) {
+		case *ssa.UnOp, *ssa.Field:
+		default:
+			// address escapes (passed to a call, captured, …): may be written elsewhere
+			if _, isFA := a.in.(*ssa.FieldAddr); !isFA {
+				ok = false
+			}
+		}
+	}
+	// config structs are also filled by reflection (cfg.Parse): only fields of unexported
+	// plugin state or with at least one checked store are trusted
+	if n == 0 {
+		ok = false
+	}
+	if ok {
+		c.fNonNeg[key] = 1
+	} else {
+		c.fNonNeg[key] = 2
+	}
+	return ok
 }
 
 // ---------- proving ----------
